@@ -70,7 +70,7 @@ let scalar_of_name = function
   | "sint32" -> SInt32 | "sint64" -> SInt64 | "fixed32" -> Fixed32 | "fixed64" -> Fixed64
   | "sfixed32" -> SFixed32 | "sfixed64" -> SFixed64 | "float" -> Float | "double" -> Double
   | "Bool" -> Bool_ | "bytes" -> Bytes | "bytes16" -> Bytes16 | "bytes32" -> Bytes32
-  | "bytes64" -> Bytes64 | "string" -> String_
+  | "bytes64" -> Bytes64 | "string" -> String_ | "string_path" -> StringPath
   | s -> failwith ("bad scalar " ^ s)
 
 let rec parse_msg ts : msg =
